@@ -57,6 +57,7 @@ type Options struct {
 	InitPkgs     []string
 	SolverLog    string
 	PanicOK      bool
+	HangIsViolation bool
 }
 
 // Report is the outcome of exploring one harness.
@@ -205,6 +206,7 @@ func Explore(p *Program, harness string, opt Options) *Report {
 			}
 			m.Trace = opt.Trace
 			m.PanicIsBug = !opt.PanicOK
+			m.HangIsViolation = opt.HangIsViolation
 			if opt.MaxSteps > 0 {
 				m.MaxSteps = opt.MaxSteps
 			}
